@@ -779,6 +779,15 @@ def job_action(prog, job):
                             ob(res, P, 'C12', '%s:message-count' % role_base,
                                z3.Implies(g, to_bv(fget(S, gv, 'num_messages')) == to_bv(fget(S, wv, 'num_messages'))),
                                'message count differs from previous count + 1', bs, job)
+                if 'C15' in props and 'last_time' in S['AirplaneState'] and len(post.ents) == len(ents):
+                    # a frame does not refresh the "last heard" stamp of any aircraft other than its sender (frames
+                    # without an announced address refresh none)
+                    for i, ((gk, gv), (wk, wv)) in enumerate(zip(post.ents, ents)):
+                        if i == want['touched']:
+                            continue
+                        ob(res, P, 'C15', '%s:stamp-of-others' % role_base,
+                           z3.Implies(g, coll_bi.t_eq(coll_bi.t_parts(fget(S, gv, 'last_time')), coll_bi.t_parts(fget(S, wv, 'last_time')))),
+                           'the last-heard stamp of an aircraft that did not send this frame changed', bs, job)
                 if len(post.ents) != len(ents) or want['touched'] is None:
                     if want['touched'] is None and 'C12' in props and len(post.ents) == len(ents):
                         pass
